@@ -79,7 +79,18 @@ def run_property(prop, tier, seed):
                 samples = samples[: j.get("validate", 60 if tier == "quick" else 300)]
                 cases = [(h, x["inputs"]) for x in samples]
                 vcases = [(h, v["inputs"]) for v in s["violations"] if "inputs" in v]
-                nat, raw = M.run_native_batch(exe, scratch, cases + vcases, timeout=180)
+                nat, raw = M.run_native_batch(exe, scratch, cases + [c for c, v in zip(vcases, [v for v in s["violations"] if "inputs" in v]) if v["kind"] != "steplimit"], timeout=180)
+                # suspected non-termination: replay one by one under a watchdog
+                hang_nat = {}
+                for idx, v in enumerate([v for v in s["violations"] if "inputs" in v]):
+                    if v["kind"] == "steplimit":
+                        hn, _ = M.run_native_batch(exe, scratch, [(h, v["inputs"])], timeout=20)
+                        hang_nat[idx] = hn[0] if hn and hn[0] else {"outcome": "hang", "obs": [], "panic": None, "checks": [], "covers": []}
+                vn = []
+                it = iter(nat[len(cases):])
+                for idx, v in enumerate([v for v in s["violations"] if "inputs" in v]):
+                    vn.append(hang_nat[idx] if idx in hang_nat else next(it, None))
+                nat = nat[: len(cases)] + vn
                 mism = 0
                 for x, n in zip(samples, nat[: len(cases)]):
                     if n is None or n["outcome"] != "ok" or n["obs"] != x["obs"]:
